@@ -13,7 +13,10 @@
 (*          perform_write, single_page; taken whenever `idle` is high),    *)
 (*          final_word at any time, write data, the memory's RWDS (any     *)
 (*          pattern, except that RWDS is quiet low in the two clocks       *)
-(*          before the read-data phase).                                   *)
+(*          before the read-data phase).  The request inputs are sampled   *)
+(*          with the strobe and may change afterwards.  rst = synchronous  *)
+(*          reset of the interface's clock domain in any cycle: whatever   *)
+(*          was in progress is abandoned (CS drops), the interface is idle.*)
 (*   Ref  : the transaction on the bus (cur), a request accepted while the *)
 (*          previous one is still finishing on the bus (nxt), the queue of *)
 (*          write words accepted through write_ready and not yet clocked   *)
@@ -74,7 +77,7 @@ NewTxn(i) == [NoTxn EXCEPT !.active = TRUE, !.write = i.write, !.reg = i.reg, !.
                            !.ca = CAWords(i.write, i.reg, i.single, i.ahi, i.alo)]
 
 NoIn == [start |-> FALSE, write |-> FALSE, reg |-> FALSE, single |-> FALSE, ahi |-> 0, alo |-> 0,
-         final |-> FALSE, wdata |-> 0, rwds |-> 0]
+         final |-> FALSE, wdata |-> 0, rwds |-> 0, rst |-> FALSE]
 NoOut == [cs |-> FALSE, clk_en |-> FALSE, dq_e |-> FALSE, dq_o |-> 0, rwds_e |-> FALSE, rwds_o |-> 0,
           idle |-> FALSE, write_ready |-> FALSE, read_ready |-> FALSE]
 
@@ -198,13 +201,13 @@ Update(i, o) ==
       kobs == IF clk THEN k1 ELSE cur.k                  \* clock number this cycle belongs to
   IN /\ in' = i /\ out' = o
      /\ prev0' = i.rwds % 2
-     /\ cur' = IF take THEN nxt1 ELSE cur1
-     /\ nxt' = IF take THEN NoTxn ELSE nxt1
-     /\ memcmd' = IF take THEN <<>> ELSE IF clk /\ p = "cmd" THEN Append(memcmd, IF o.dq_e THEN o.dq_o ELSE -1)
+     /\ cur' = IF i.rst THEN NoTxn ELSE IF take THEN nxt1 ELSE cur1
+     /\ nxt' = IF i.rst \/ take THEN NoTxn ELSE nxt1
+     /\ memcmd' = IF take \/ i.rst THEN <<>> ELSE IF clk /\ p = "cmd" THEN Append(memcmd, IF o.dq_e THEN o.dq_o ELSE -1)
                   ELSE memcmd
-     /\ memwr'  = IF take THEN <<>> ELSE IF clk /\ p = "wdata" THEN Append(memwr, IF o.dq_e THEN o.dq_o ELSE -1)
+     /\ memwr'  = IF take \/ i.rst THEN <<>> ELSE IF clk /\ p = "wdata" THEN Append(memwr, IF o.dq_e THEN o.dq_o ELSE -1)
                   ELSE memwr
-     /\ accw'   = IF take THEN <<>> ELSE IF o.write_ready THEN Append(accw, i.wdata) ELSE accw
+     /\ accw'   = IF take \/ i.rst THEN <<>> ELSE IF o.write_ready THEN Append(accw, i.wdata) ELSE accw
      /\ conflict' = (conflict \/ (Running /\ o.cs /\ ((o.dq_e /\ MemDrivesDQ(kobs)) \/ (o.rwds_e /\ MemDrivesRWDS(kobs)))))
 
 -----------------------------------------------------------------------------
@@ -234,7 +237,7 @@ NoReq == [write |-> FALSE, reg |-> FALSE, single |-> FALSE, ahi |-> 0, alo |-> 0
 
 KindOfState == IF ~cur.active THEN "free" ELSE IF cur.done THEN "drain" ELSE "run"
 
-Cycle(kind) ==
+Cycle(kind, rst) ==
   /\ KindOfState = (IF kind \in {"free", "accept"} THEN "free" ELSE IF kind = "drain" THEN "drain" ELSE "run")
   /\ (kind \in {"cmd", "lat", "wdata", "rdata"} => Phase(cur, cur.k + 1) = kind)
   /\ \E wr \in (IF Running /\ cur.write /\ ~cur.wfinal /\ Len(cur.wq) < MaxQ THEN Bool ELSE {FALSE}) :
@@ -245,27 +248,29 @@ Cycle(kind) ==
      LET rr == cur.active /\ ~cur.write /\ ~cur.rfinal /\ KNow(b) >= 3 + L
                /\ ((rw = 2) \/ (prev0 = 1 /\ rw \div 2 = 0)) IN
      \E fin \in (IF wr /\ Len(accw) + 1 >= MaxQ + 1 THEN {TRUE} ELSE IF wr \/ rr THEN Bool ELSE {FALSE}) :
-     \E start \in (IF kind # "free" THEN Bool ELSE {FALSE}) :
+     \E start \in (IF kind # "free" /\ ~rst THEN Bool ELSE {FALSE}) :
      LET idle == start IN                              \* idle without a request changes nothing
      \E rq \in (IF start THEN Reqs ELSE {NoReq}) :
      LET i == [start |-> start, write |-> rq.write, reg |-> rq.reg, single |-> rq.single, ahi |-> rq.ahi,
-               alo |-> rq.alo, final |-> fin, wdata |-> wd, rwds |-> rw]
+               alo |-> rq.alo, final |-> fin, wdata |-> wd, rwds |-> rw, rst |-> rst]
          o == [cs |-> b.cs, clk_en |-> b.clk_en, dq_e |-> b.dq_e, dq_o |-> b.dq_o, rwds_e |-> b.rwds_e,
                rwds_o |-> b.rwds_o, idle |-> idle, write_ready |-> wr, read_ready |-> rr]
      IN /\ (kind = "accept" => start)
         /\ Viol(i, o) = "ok"
         /\ Update(i, o)
 
-FreeCycle    == Cycle("free")       \* no transaction, no request
-AcceptCycle  == Cycle("accept")     \* no transaction on the bus, a request is taken
-WaitCycle    == Cycle("wait")       \* transaction open, no clock this cycle
-CommandClock == Cycle("cmd")
-LatencyClock == Cycle("lat")
-WriteClock   == Cycle("wdata")
-ReadClock    == Cycle("rdata")
-DrainCycle   == Cycle("drain")      \* after the last word, until CS is seen deasserted
+FreeCycle    == Cycle("free", FALSE)       \* no transaction, no request
+AcceptCycle  == Cycle("accept", FALSE)     \* no transaction on the bus, a request is taken
+WaitCycle    == Cycle("wait", FALSE)       \* transaction open, no clock this cycle
+CommandClock == Cycle("cmd", FALSE)
+LatencyClock == Cycle("lat", FALSE)
+WriteClock   == Cycle("wdata", FALSE)
+ReadClock    == Cycle("rdata", FALSE)
+DrainCycle   == Cycle("drain", FALSE)      \* after the last word, until CS is seen deasserted
 
-Next == FreeCycle \/ AcceptCycle \/ WaitCycle \/ CommandClock \/ LatencyClock \/ WriteClock \/ ReadClock \/ DrainCycle
+ResetCycle   == \E k \in {"free", "wait", "cmd", "lat", "wdata", "rdata", "drain"} : Cycle(k, TRUE)   \* reset in any phase
+
+Next == ResetCycle \/ FreeCycle \/ AcceptCycle \/ WaitCycle \/ CommandClock \/ LatencyClock \/ WriteClock \/ ReadClock \/ DrainCycle
 
 Spec == Init /\ [][Next]_vars
 
@@ -298,5 +303,6 @@ WrittenIsAccepted ==
 DataLatency == cur.active /\ memwr # <<>> => cur.k >= DataStart(cur) /\ Len(memwr) = cur.k - DataStart(cur) + 1
 NoContention == ~conflict
 ChipSelectHeld == [][(cur.active /\ cur.k >= 1 /\ ~cur.done) => out'.cs]_vars
+ResetAbandons == [][in'.rst => (~cur'.active /\ ~nxt'.active)]_vars
 
 =============================================================================
